@@ -349,7 +349,31 @@ def build_shaped(spec):
     return top, ports, None
 
 
-BUILDERS = {"dedup": build_dedup, "hier": build_hier, "inst": build_inst, "mem": build_mem, "lib": build_lib, "stmtbatch": build_lib, "shaped": build_shaped}
+# ------------------------------------------------------------------ assignment targets: run-time part selects of array elements of different widths
+def arrtarget_designs():
+    for widths in ((4, 8), (8, 4), (2, 5), (3, 3), (1, 6, 3)):
+        for sel in ("wsel", "bsel"):
+            for w in (1, 2, 3):
+                for offw in (1, 2, 3):
+                    for dom in ("comb", "sync"):
+                        yield {"kind": "arrtarget", "widths": widths, "sel": sel, "w": w, "offw": offw, "dom": dom}
+
+
+def build_arrtarget(spec):
+    from amaranth.hdl import Module, Signal, Array
+    top, child = Module(), Module()
+    top.submodules.child = child
+    elems = [Signal(w, name=f"e{n}") for n, w in enumerate(spec["widths"])]
+    idx = Signal(range(len(elems)), name="idx")
+    off = Signal(spec["offw"], name="off")
+    x = Signal(spec["w"], name="x")
+    proxy = Array(elems)[idx]
+    tgt = proxy.word_select(off, spec["w"]) if spec["sel"] == "wsel" else proxy.bit_select(off, spec["w"])
+    child.d[spec["dom"]] += tgt.eq(x)
+    return top, elems + [idx, off, x], None
+
+
+BUILDERS = {"dedup": build_dedup, "hier": build_hier, "inst": build_inst, "mem": build_mem, "lib": build_lib, "stmtbatch": build_lib, "shaped": build_shaped, "arrtarget": build_arrtarget}
 
 
 def check_one(spec):
@@ -405,7 +429,7 @@ def spec_sig(spec):
 
 
 def run(rep):
-    specs = list(hier_designs(rep.quick)) + list(dedup_designs()) + list(inst_designs()) + list(mem_designs()) + list(lib_designs()) + list(shaped_designs())
+    specs = list(hier_designs(rep.quick)) + list(dedup_designs()) + list(inst_designs()) + list(mem_designs()) + list(lib_designs()) + list(shaped_designs()) + list(arrtarget_designs())
     rep.setcov("designs_enumerated", len(specs))
     tasks = rotate(list(chunks(specs, 60)), rep.seed)
     for part in pmap(work, tasks, rep.procs):
@@ -416,7 +440,7 @@ def run(rep):
                "signals/slices/concatenations/constants, at 3 hierarchy levels); memories (depth 0..4, width 0..3, 0-2 ports, comb/sync, granularity); the C04 "
                "sequential designs and C02 statement batches with shared signal names; signals shaped by enumerations (unsigned, signed with negative members, "
                "flags), structs, arrays and unions, alone and with a same-named twin in the same or another module (enum_value attributes compared with "
-               "the members' two's-complement bit patterns). Each emitted document is checked by vf/rtlil/validate.py. "
+               "the members' two's-complement bit patterns); run-time part selects of array elements of different widths as assignment targets. Each emitted document is checked by vf/rtlil/validate.py. "
                "non-trivial: a document was emitted")
     rep.setcov("exhaustive", True)
     rep.require(rep.cov.get("harness_skips", 0) == 0, "every enumerated design could be built")
